@@ -39,6 +39,7 @@ func runC18(c *Ctx, r *Report) {
 	c18Sizes(c, r, "C18.R4")
 	c18Tiling(c, r, "C18.R5")
 	c18Chunks(c, r, "C18.R6")
+	c18NarrowLen(c, r, "C18.R7")
 }
 
 // c18Header evaluates MessageHeader.FromBytes/ToBytes for all 256 byte values.
